@@ -265,7 +265,7 @@ CMutableTransaction Build(const Tx& t)
         CTxIn in;
         in.prevout = COutPoint(Txid::FromUint256(i.hash), i.n);
         in.scriptSig = CScript();
-        in.scriptSig.resize(i.sslen, 0x51);
+        in.scriptSig.assign(i.sslen, 0x51);
         in.nSequence = i.seq;
         for (uint32_t l : i.wit) in.scriptWitness.stack.emplace_back(l, 0x42);
         m.vin.push_back(std::move(in));
@@ -273,7 +273,7 @@ CMutableTransaction Build(const Tx& t)
     for (const Out& o : t.vout) {
         CTxOut out;
         out.nValue = o.value;
-        out.scriptPubKey.resize(o.spklen, 0x6a);
+        out.scriptPubKey.assign(o.spklen, 0x6a);
         m.vout.push_back(std::move(out));
     }
     return m;
@@ -330,15 +330,15 @@ VH_CMD(checktx)
             Apply(t, m, a, b, rng);
             muts = std::to_string(m);
         } else {
-            const size_t nin = rng.chance(1, 30) ? 0 : 1 + rng.below(rng.chance(1, 20) ? 40 : 6);
-            const size_t nout = rng.chance(1, 30) ? 0 : 1 + rng.below(rng.chance(1, 20) ? 40 : 6);
+            const size_t nin = rng.chance(1, 60) ? 0 : 1 + rng.below(rng.chance(1, 20) ? 40 : 6);
+            const size_t nout = rng.chance(1, 60) ? 0 : 1 + rng.below(rng.chance(1, 20) ? 40 : 6);
             t = BaseTx(rng, nin, nout);
             static const int kcount[] = {0, 1, 1, 1, 1, 2, 2, 2, 3, 3};
             const int k = kcount[rng.below(10)];
             for (int i = 0; i < k; ++i) {
-                int m = 1 + static_cast<int>(rng.below(M_COUNT - 1));
-                // the 1 MB cases are expensive to hash: thin them out
-                if (m == M_SIZE && !rng.chance(1, 6)) m = M_VALUE;
+                // (the empty-vector rules mask everything else and the 1 MB cases are expensive to hash: lower weights)
+                static const std::vector<uint32_t> w = {0, 1, 1, 1, 6, 6, 5, 3, 5, 3, 5, 3};
+                const int m = static_cast<int>(rng.weighted(w));
                 Apply(t, m, rng.next() >> 8, rng.next() >> 8, rng);
                 muts += (muts.empty() ? "" : ",") + std::to_string(m);
             }
